@@ -13,7 +13,9 @@
        model, started anywhere in any code that contains the compiled block, in any state that Matches the
        reference state (scope chain = frame chain, namespaces), pushes the frames, runs exactly those instructions,
        completes each frame handing over exactly the block's value, and stops in a state that Matches the reference
-       result (C02_vm_runs_structured_blocks, C02_vm_runs_structured_expressions) - unbounded in size and nesting.
+       result (C02_vm_runs_structured_blocks, C02_vm_runs_structured_expressions) - unbounded in size and nesting;
+       execute_do, the loop of runtime.cpp, follows that path slice by slice, and a whole structured program loaded
+       as the root frame ends with result `empty`, no frame and exactly the program's value (C02_structured_program_runs).
        NOT covered by the simulation: loops (while / for / forEach / count / select / apply / findIf), switch,
        exitWith, breakOut, try / catch / throw, waitUntil, nil operands - for these the per-construct theorems below
        and the program-level differential are the evidence;
@@ -28,8 +30,8 @@
    Related kernel-checked results used by this property live in Properties_C03 (scoping), Properties_C04 (handlers, throw),
    Properties_C05 (one value per scope, regions). *)
 From Coq Require Import String Ascii.
-From Coq Require Import ZArith List Bool.
-From SqfVerif Require Import Gen.DiagCodes Gen.Overloads VM.VmDefs VM.VmExec VM.RefSem VM.C02Proofs VM.SimDefs VM.SimProofs VM.SimBlock VM.SimCtl.
+From Coq Require Import ZArith List Bool Lia.
+From SqfVerif Require Import Gen.DiagCodes Gen.Overloads VM.VmDefs VM.VmExec VM.RefSem VM.C02Proofs VM.SimDefs VM.SimProofs VM.SimBlock VM.SimCtl VM.SimRun.
 Import ListNotations.
 Local Open Scope string_scope.
 Local Open Scope list_scope.
@@ -262,4 +264,42 @@ Proof.
       + eapply XBCons; [eapply XSAssign; [discriminate|eapply XPure; eapply PNum|split; discriminate]|].
         eapply XBLast. eapply XSExprV. eapply XPure. eapply PVarG; reflexivity. }
   reflexivity.
+Qed.
+
+(* ---- from the step relation to execute_do (the loop of runtime.cpp) and to whole programs *)
+Theorem C02_execute_do_follows_the_simulation : forall r r2, Steps r r2 -> forall fuel n x r', execute_do fuel r n = Ok (x, r') ->
+  (exists fuel2 n2, fuel2 <= fuel /\ n2 <= n /\ execute_do fuel2 r2 n2 = Ok (x, r')) \/
+  (x = ROk /\ Steps r r' /\ Steps r' r2).
+Proof. exact execute_do_follows. Qed.
+Print Assumptions C02_execute_do_follows_the_simulation.
+(* a structured program loaded as the root frame of a context: the machine reaches a state in which the context has no
+   frame left and holds exactly the program's value (nothing when the last statement is an assignment), the namespaces
+   are those of the reference result, and the next pass reports `empty`; every slice of execute_do started on the
+   program either is the one that finishes it (result empty, that state) or stops on the way (result ok) *)
+Theorem C02_structured_program_runs : forall s p reg s' r c f,
+  xblock s RNone p reg s' ->
+  AtM s RNone r c f [] [] -> f_code f = compile_block p -> f_pos f = 0 -> f_exit f = None ->
+  exists rf cf,
+    Steps r rf /\ cur rf = Some cf /\ c_frames cf = [] /\
+    c_values cf = match reg with RNone => [] | v => [cv v] end /\
+    r_nss rf = mnss (st_nss s') /\
+    do_iter rf = Ok (Return REmpty rf) /\
+    forall fuel n x r', execute_do fuel r n = Ok (x, r') ->
+      (x = REmpty /\ r' = rf) \/ (x = ROk /\ Steps r r' /\ Steps r' rf).
+Proof. exact program_run. Qed.
+Print Assumptions C02_structured_program_runs.
+(* its premises on a concrete machine: the loaded example program in a running VM *)
+Definition ex_running_ctl : rt :=
+  let r := load (create_rt [] 0 0 (100 * 100) 150) (compile_block ex_ctl) in
+  rt_with r (r_ctxs r) (Some 0) StRunning false false true false [] [] (r_nss r) (r_clock r) (r_timestamp r) (r_next_id r).
+Example structured_program_premises :
+  let c := push_frame (new_context 0 false) (mk_frame default_ns (compile_block ex_ctl) None None []) in
+  let f := mk_frame default_ns (compile_block ex_ctl) None None [] in
+  AtM init_state RNone ex_running_ctl c f [] [] /\ f_code f = compile_block ex_ctl /\ f_pos f = 0 /\ f_exit f = None.
+Proof.
+  cbv zeta. split; [|repeat split].
+  split; [|split; [reflexivity|exists []; split; reflexivity]].
+  split; [unfold Good; split; [reflexivity|cbn; auto 10]|]. split; [reflexivity|]. split.
+  - split; [|reflexivity]. cbn. constructor; [|constructor]. repeat split.
+  - split; [cbn; lia|reflexivity].
 Qed.
